@@ -448,28 +448,67 @@ def r195(ctx, R):
     # 201 only after a successful create, 204 otherwise
     for q in ('placement.handlers.trait:put_trait',):
         f = prog.func(q)
-        # the variable stored into req.response.status
-        svar = None
-        for x in own_nodes(f.node):
-            if isinstance(x, ast.Assign) and any(
-                    isinstance(t, ast.Attribute) and t.attr == 'status'
-                    and isinstance(t.value, ast.Attribute)
-                    and t.value.attr == 'response' for t in x.targets) \
-                    and isinstance(x.value, ast.Name):
-                svar = x.value.id
-        sets = [x for x in own_nodes(f.node) if isinstance(x, ast.Assign)
-                and svar is not None
-                and any(isinstance(t, ast.Name) and t.id == svar
+        # every place that can put 201 into the response status: a direct
+        # store of the constant, or a store into the variable that is later
+        # stored into the status - each either follows the successful
+        # create() directly, or runs under a flag that is set true only
+        # there
+        g19 = cfgmod.cfg_of(f)
+        cr = [s.node for s in ctx.cg.calls_in(f) if s.method == 'create']
+
+        def is_status(t):
+            return isinstance(t, ast.Attribute) and t.attr == 'status' and \
+                isinstance(t.value, ast.Attribute) and \
+                t.value.attr == 'response'
+        svars = {x.value.id for x in own_nodes(f.node)
+                 if isinstance(x, ast.Assign) and any(
+                     is_status(t) for t in x.targets)
+                 and isinstance(x.value, ast.Name)}
+        sites201 = [x for x in own_nodes(f.node) if isinstance(x, ast.Assign)
+                    and isinstance(x.value, ast.Constant)
+                    and x.value.value == 201 and any(
+                        is_status(t) or (isinstance(t, ast.Name)
+                                         and t.id in svars)
                         for t in x.targets)]
-        vals = sorted(x.value.value for x in sets
-                      if isinstance(x.value, ast.Constant))
-        created = [x for x in sets if isinstance(x.value, ast.Constant)
-                   and x.value.value == 201]
-        okv = vals == [201, 204] and len(created) == 1
-        if okv:
-            cr = [s.node for s in ctx.cg.calls_in(f) if s.method == 'create']
-            okv = len(cr) == 1 and cfgmod.cfg_of(f).dominates(
-                C.stmt_of(cr[0]), created[0])
+        sites204 = [x for x in own_nodes(f.node) if isinstance(x, ast.Assign)
+                    and isinstance(x.value, ast.Constant)
+                    and x.value.value == 204 and any(
+                        is_status(t) or (isinstance(t, ast.Name)
+                                         and t.id in svars)
+                        for t in x.targets)]
+
+        def after_create(st):
+            if len(cr) != 1 or not g19.dominates(C.stmt_of(cr[0]), st):
+                return False
+            # not in an except clause of a try whose body holds the create
+            # (there the create has failed)
+            for t in C.enclosing_trys(cr[0], f.node):
+                for h in t.handlers:
+                    if any(st is y for y in ast.walk(h)):
+                        return False
+            return True
+        okv = bool(sites201) and bool(sites204) and len(cr) == 1
+        vals = []
+        for st in sites201:
+            if after_create(st):
+                vals.append('201 after create()')
+                continue
+            flags = [e.id for e, pol in C.conds(st, f.node, implicit=True)
+                     if pol and isinstance(e, ast.Name)]
+            good = False
+            for fl in flags:
+                trues = [x for x in own_nodes(f.node)
+                         if isinstance(x, ast.Assign) and any(
+                             isinstance(t, ast.Name) and t.id == fl
+                             for t in x.targets)
+                         and not (isinstance(x.value, ast.Constant)
+                                  and x.value.value is False)]
+                if trues and all(isinstance(x.value, ast.Constant)
+                                 and x.value.value is True
+                                 and after_create(x) for x in trues):
+                    good = True
+            vals.append('201 under %s: %s' % (flags, good))
+            okv = okv and good
         R.ob('R19.5', '%s:201-only-after-create' % q.split(':')[1], okv,
              'status 201 is set only after create() succeeded, 204 '
              'otherwise', vals, func=f)
